@@ -108,7 +108,7 @@ def _step(draw):
     if kind == "raise":
         return {"kind": "raise", "which": draw(st.sampled_from(("dims_add", "dims_dot", "cross4", "boost2d", "bad_obj", "bad_names", "bad_array",
                                                                  "two_kw", "bad_order", "div0", "eq_dims", "like_bad"))), "h": draw(st.integers(0, 2**30))}
-    return {"kind": "construct", "which": draw(st.sampled_from(("obj", "array", "zip", "Array", "zip_mom"))), "h": draw(st.integers(0, 2**30)),
+    return {"kind": "construct", "which": draw(st.sampled_from(("obj", "array", "zip", "Array", "zip_mom", "Array_behavior", "zip_behavior"))), "h": draw(st.integers(0, 2**30)),
             "v": draw(gen.vec(("moderate",)))}
 
 
@@ -278,6 +278,15 @@ def run_step(step, registered=False):
                 r = vector.zip({"x": [[c[0]], [], [1.0, 2.0]], "y": [[c[1]], [], [3.0, 4.0]]})
             elif w == "Array":
                 r = vector.Array([{"rho": abs(c[0]), "phi": 0.3, "eta": 0.1, "tau": 1.0}])
+            elif w in ("Array_behavior", "zip_behavior"):
+                # an input that carries its own (foreign) behavior entries: they belong to that array, not to the library
+                foreign = {("__verif__", f"k{h % 3}"): _errcall, "*": ak.behavior.get("*", None) or _Log}
+                if w == "Array_behavior":
+                    src = ak.Array([{"x": c[0], "y": c[1]}, {"x": 1.0, "y": 2.0}], behavior=foreign)
+                    r = vector.Array(src)
+                else:
+                    src = ak.Array([c[0], 1.0], behavior=foreign)
+                    r = vector.zip({"x": src, "y": ak.Array([c[1], 2.0], behavior=foreign)})
             else:
                 r = vector.zip({"pt": [abs(c[0]), 1.0], "phi": [0.1, 0.2], "eta": [0.3, -0.3], "mass": [0.1, 0.2]})
             return ("ok", c14._bits(r))
